@@ -316,7 +316,7 @@ func c05Order(c *core.Ctx, r *core.Reporter) {
 	var worker *ssa.Function
 	core.Instrs(ep, func(in ssa.Instruction) {
 		if g, ok := in.(*ssa.Go); ok {
-			worker = core.ClosureFn(g.Call.Value)
+			worker = core.GoTarget(g)
 		}
 	})
 	gvv := c.Func("", "getVariableValues")
